@@ -3,6 +3,7 @@ CONSTANTS
   Alphabet = {32, 9, 12288, 97, 39, 13, 10}
   N = 4
   Quotes = 5
+  FirstBreak = "lf"
   STRIP_BY_LENGTH = FALSE
 INVARIANTS NonBlankKept ValueKept Reindented Fixpoint ImplSubset Emit
 CHECK_DEADLOCK FALSE
